@@ -171,8 +171,8 @@ static void Array_Assign(var self, var obj) {
   if (implements_method(obj, Len, len)
   and implements_method(obj, Get, get)) {
   
-    a->nitems = len(obj);
-    a->nslots = a->nitems;
+    size_t nitems = len(obj);
+    a->nslots = nitems;
     
     if (a->nslots is 0) {
       a->data = NULL;
@@ -187,9 +187,10 @@ static void Array_Assign(var self, var obj) {
     }
   #endif
     
-    for(size_t i = 0; i < a->nitems; i++) {
+    for(size_t i = 0; i < nitems; i++) {
       Array_Alloc(a, i);
-      assign(Array_Item(a, i), get(obj, $I(i)));  
+      assign(Array_Item(a, i), get(obj, $I(i)));
+      a->nitems++;
     }
   
   } else {
